@@ -110,3 +110,106 @@ func StressConcurrentCopies(rounds, copies int) string {
 	}
 	return ""
 }
+
+// seqSender records the sequence numbers of the origin's own frames.
+type seqSender struct {
+	mu    sync.Mutex
+	peers []identity.AgentID
+	org   identity.AgentID
+	seqs  []uint64
+}
+
+func (s *seqSender) SendToPeer(id identity.AgentID, fr *protocol.Frame) error {
+	if fr.Type != protocol.FrameRouteAdvertise {
+		return nil
+	}
+	adv, err := protocol.DecodeRouteAdvertise(fr.Payload)
+	if err != nil || adv.OriginAgent != s.org {
+		return nil
+	}
+	s.mu.Lock()
+	s.seqs = append(s.seqs, adv.Sequence)
+	s.mu.Unlock()
+	return nil
+}
+
+func (s *seqSender) GetPeerIDs() []identity.AgentID {
+	return append([]identity.AgentID(nil), s.peers...)
+}
+
+// StressConcurrentSequences: at one origin the periodic announcement
+// (routeAdvertiseLoop) and the full-table replay to a peer that has just
+// (re)connected (handlePeerConnected) run on different goroutines and both
+// number their advertisement from the origin's counter. Two DIFFERENT
+// advertisements under one (origin, sequence) would make every receiver drop
+// the second as already seen. With one peer each call sends exactly one frame
+// of the origin's own routes; all sequence numbers must be distinct.
+func StressConcurrentSequences(rounds int) string {
+	if runtime.GOMAXPROCS(0) < 2 {
+		defer runtime.GOMAXPROCS(runtime.GOMAXPROCS(4))
+	}
+	self, peer := NodeID(0), NodeID(1)
+	// the primitive both paths number their advertisements with: concurrent callers must all get different numbers
+	{
+		m0 := routing.NewManager(self)
+		const workers = 4
+		got := make([][]uint64, workers)
+		var wg0 sync.WaitGroup
+		var rdy int32
+		wg0.Add(workers)
+		for w := 0; w < workers; w++ {
+			go func(w int) {
+				defer wg0.Done()
+				atomic.AddInt32(&rdy, 1)
+				for atomic.LoadInt32(&rdy) < workers {
+				}
+				for i := 0; i < rounds*5; i++ {
+					got[w] = append(got[w], m0.IncrementSequence())
+				}
+			}(w)
+		}
+		wg0.Wait()
+		seen0 := map[uint64]bool{}
+		for _, g := range got {
+			for _, q := range g {
+				if seen0[q] {
+					return fmt.Sprintf("routing.Manager.IncrementSequence returned %d to two of %d concurrent callers: two different advertisements of one origin would share a sequence number", q, workers)
+				}
+				seen0[q] = true
+			}
+		}
+	}
+	snd := &seqSender{peers: []identity.AgentID{peer}, org: self}
+	mgr := routing.NewManager(self)
+	mgr.AddLocalRoute(cidrOf(1), 0)
+	f := flood.NewFlooder(flood.DefaultFloodConfig(), self, mgr, snd)
+	defer f.Stop()
+	var wg sync.WaitGroup
+	var ready int32
+	wg.Add(2)
+	run := func(step func()) {
+		defer wg.Done()
+		atomic.AddInt32(&ready, 1)
+		for atomic.LoadInt32(&ready) < 2 {
+		}
+		for i := 0; i < rounds; i++ {
+			step()
+		}
+	}
+	go run(f.AnnounceLocalRoutes)
+	go run(func() { f.SendFullTable(peer) })
+	wg.Wait()
+	seen := map[uint64]int{}
+	for _, q := range snd.seqs {
+		seen[q]++
+	}
+	for q, n := range seen {
+		if n > 1 {
+			return fmt.Sprintf("announcement and full-table replay running concurrently at one origin sent %d advertisements under sequence %d (%d frames, %d distinct sequence numbers)", n, q, len(snd.seqs), len(seen))
+		}
+	}
+	if len(snd.seqs) != 2*rounds {
+		return fmt.Sprintf("expected %d own-origin frames, saw %d", 2*rounds, len(snd.seqs))
+	}
+	return ""
+}
